@@ -19,7 +19,8 @@ import (
 )
 
 const c05Rule = "case = protocol (ipfix | nf9 | nf5 | sflow) + a decodable message from the structured generators with hostile values in every abstract type " +
-	"(strings with quotes, backslashes, control bytes, % verbs, invalid UTF-8; NaN/Inf/-0/subnormal floats; booleans; 64-bit extremes; IPv4/IPv4-mapped/IPv6 exporters); " +
+	"(strings with quotes, backslashes, control bytes, % verbs, invalid UTF-8; NaN/Inf/-0/subnormal floats; booleans; 64-bit extremes; IPv4/IPv4-mapped/IPv6 exporters; " +
+	"reduced-size fields and fields declared longer than their type, e.g. a 5- or 20-octet address: decodable, hence published); " +
 	"oracle = the payload is one valid JSON document whose AgentID, header fields and per-record (I, E iff non-zero, V) equal the decoded message: integers digit-exact, " +
 	"finite floats re-parse to the same bit pattern, booleans are JSON booleans, text equal after JSON unescaping, addresses canonical, octets 0x-hex; " +
 	"non-trivial = message holds a string needing escape, a float, a boolean, a 64-bit extreme, or >= 2 data sets; distinct by hash of the case"
@@ -104,6 +105,9 @@ func checkJSONValue(got interface{}, want wire.Canon) string {
 		}
 	case "ip":
 		s, ok := got.(string)
+		if ok && len(want.O) != 4 && len(want.O) != 16 {
+			return "" // not an address length (template declares the element longer than its type): any text
+		}
 		if !ok || !ipTextOK(s, want.O) {
 			return fmt.Sprintf("V = %v, not the canonical text of address %x", got, []byte(want.O))
 		}
@@ -279,6 +283,9 @@ func TestC05(t *testing.T) {
 	col := getCollector("C05", c05Rule)
 	runRegress(t, "C05")
 	envs := map[string]*wire.GenEnv{"ipfix": wire.NewGenEnv("ipfix"), "nf9": wire.NewGenEnv("nf9")}
+	// the oracle compares the JSON with what the decoder returned, so templates may also declare fixed-size
+	// elements longer than their type (decodable, hence published, though outside RFC 7011)
+	envs["ipfix"].OffSpecLengths, envs["nf9"].OffSpecLengths = true, true
 	rapid.Check(t, func(t *rapid.T) {
 		c := c05Case{Proto: rapid.SampledFrom([]string{"ipfix", "ipfix", "nf9", "nf9", "nf5", "sflow"}).Draw(t, "proto")}
 		switch c.Proto {
